@@ -12,6 +12,9 @@ Correspondence (model = lean/PdtModel/Model/PathRes.lean through the compiled dr
   * histories: within one process the scratch tree is edited between consecutive loads of the same
     specifications (folder/file <-> outward or inward symlink, symlink retargeted); each call is compared with
     the model over the symlink map and world observed at that call and judged by the oracle at that call.
+  * roots that are not canonical as written (a tenth of the API cases) are outside the property's quantifier: only
+    "nothing outside the real root is touched" is judged; that the code refuses everything is compared with the model
+    while it does.  When several refusals apply to one specification, which of them fires first is not compared.
   * the API-level comparison is order-free (sub-multiset of the model's envelope `runAll`, end = done iff nothing
     reachable fails); the os.stat family and Path.resolve are wrapped in the watch window: stat-family calls outside
     Path.resolve() only on successfully checked paths, resolve() calls as in the model (a stat outside the root is a
@@ -77,7 +80,7 @@ CASE_ROOTS = {"Project": ["project", "PROJECT"], STRASSE_ROOT: ["STRASSE", "stra
               "croot": ["CRoot"]}
 FILE_PATTERN = re.compile(r"(?!~\$).*\.(csv|xlsx)$", re.IGNORECASE)   # make_loader default (compared via API runs)
 DECOYS = ["/etc/passwd", "/etc/hostname"]
-NONEX = ["nope", "ghost.csv", "zz", "nope", "ghost.csv", "zz", "\U0001F600.csv", "a\x85b.csv", "x\u2028y", "\ufeffq.csv",
+NONEX = ["nope", "ghost.csv", "zz", "nope", "ghost.csv", "zz", "*.csv", "?", "[a-z]*", "\U0001F600.csv", "a\x85b.csv", "x\u2028y", "\ufeffq.csv",
          "\U00020000", "v\x0bw\x1c.csv"]
 # which model of `Path.resolve()` matches the running interpreter: CPython <= 3.12 gives up at a symlink loop the
 # way `FS.py312Resolve` does; 3.13 changed that (no RuntimeError in non-strict mode) and has no model here
@@ -540,7 +543,9 @@ def gen_spec(rng, T, src_folder):
                            "file:/../Root/a.csv", "\\../ROOT/a.csv", "/../project/p.csv", "/../PROJECT",
                            "/../PROJECT/sub/q.csv", "/ln_sib/p.csv", "/ln_sib", "/ln_sib_file.csv", "/../STRASSE/p.csv",
                            "/../strasse", "/../CRoot/m.csv", "/p.csv", "/sub/q.csv", "/ln_in/q.csv",
-                           "/../Project/p.csv", "/../" + STRASSE_ROOT + "/p.csv"])
+                           "/../Project/p.csv", "/../" + STRASSE_ROOT + "/p.csv",
+                           "/../outside/*.csv", "/*.csv", "/sub/?.csv", "/[ab].csv", "/../outside/*", "/**/secret.csv",
+                           "file:/../outside/s*.csv", "/ln_out_dir/*.csv", "/../*/secret.csv", "*.csv", "../*"])
     elif form in ("abs", "dslash_abs"):
         base = rng.choice([root, root + "/sub", T + "/outside", T + "/root2", T, T + "/rootlink", "/",
                            T + "/Root", T + "/PROJECT", T + "/Project"])
@@ -1011,10 +1016,19 @@ def _exec_function(T, fs, case, out, ops, pend, model_ok):
         case["want"] = want[0]
     if model_ok:
         ops.append({"op": "pathres_resolve_item", "resolver": RESOLVER_MODEL, "root": root, "spec": spec, "src": src, "fs": fs})
+        def post(a, rec):
+            # accepted path / exception class as in the model; no stat-family access outside Path.resolve(); the
+            # Path.resolve() calls are among the model's (when several refusals apply, which one fires first — and so
+            # whether the second resolve() is still made — is not compared)
+            from collections import Counter
+            m_res = Counter(e[1] for e in a["trace"] if e[0] == "resolve")
+            ok = a["res"] == rec["res"] and not rec["stats"] and not (Counter(rec["resolves"]) - m_res) and \
+                ("ok" not in rec["res"] or Counter(rec["resolves"]) == m_res)
+            return rec if ok else {"res": a["res"], "stats": [], "resolves": sorted(m_res.elements())}
+
         pend.append(("_resolve_load_item_path vs resolveLoadItem (result, Path.resolve() calls, no other stat-family "
                      "access)", case, {"res": impl, "stats": list(events.stats), "resolves": list(events.resolves)},
-                     lambda a: {"res": a["res"], "stats": [],
-                                "resolves": [e[1] for e in a["trace"] if e[0] == "resolve"]}))
+                     post))
 
 
 PLACEMENTS = ["root_item", "root_item", "include_root", "include_root", "include_nested", "include_nested",
@@ -1033,9 +1047,11 @@ PARENT_TARGETS_RELATIVE = ["../secret_top.csv", "file:../secret_top.csv", "..//s
                            "../root2/e.csv", "../croot/../outside", "../root/a.csv"]
 
 
-def _impl_record(end, events):
-    return {"end": end, "events": [[k, q] for k, q in events], "stats": list(events.stats),
-            "resolves": list(events.resolves)}
+def _impl_record(end, events, root_arg=None):
+    # Path.resolve() of the root folder itself (as written, or its real path) is nobody's business: dropped
+    roots = set() if root_arg is None else {str(root_arg), str(Path(root_arg)), os.path.realpath(str(root_arg))}
+    return {"end": end, "events": [[k, q] for k, q in events], "stats": [q for q in events.stats if q not in roots],
+            "resolves": [q for q in events.resolves if q not in roots]}
 
 
 def _load_verdict(out):
@@ -1347,16 +1363,18 @@ def _exec_api(T, tables, fs, case, out, ops, pend, model_ok):
             out.count("api:roots-as-Path")
         hostile = bool(set(tags) - {"plain", "rooted", "relative", "default"}) or end != "done" or noncanon
         out.case(case, nontrivial=hostile)
+        code_refuses_all = True
         if noncanon:
-            # a root that is not canonical as written: nothing at all may be touched, everything is refused
-            if len(events):
-                out.fail("a load with a non-canonical root folder opened or listed something", case,
-                         [[k, tok(q, T)] for k, q in events], [], key="api:noncanonical-root-access")
-            if end == "done" and roots != []:
-                out.fail("a load with a non-canonical root folder accepted a specification", case, end,
-                         "LoadError", key="api:noncanonical-root-accepted")
+            # a root that is not canonical as written lies outside the property's quantifier: the only judgement is
+            # that nothing outside the REAL root is touched (`root` is the real root).  That today's code refuses
+            # everything (theorem noncanonical_root_refuses_all) is compared with the model only while it still does.
             planted_src = "unplantable"
+            code_refuses_all = (not len(events)) and not events.stats and \
+                (end in ({"exc": "LoadError"}, {"exc": "InputError"}) or roots == [])
+            out.count("api:noncanonical-root:" + ("refuses-all" if code_refuses_all else "works-with-it"))
         _judge_load(out, case, T, root, spec, planted_src, raising, end, events, got_tables, refused, tables)
+        if noncanon and not code_refuses_all:
+            model_ok = False
         if x["protocol"] == "empty" and protocol_loaders != {}:
             out.count("api:caller-dict-changed")
         if model_ok:
@@ -1366,8 +1384,16 @@ def _exec_api(T, tables, fs, case, out, ops, pend, model_ok):
             ops.append({"op": "pathres_load", "resolver": RESOLVER_MODEL, "root": str(root_arg),
                         "roots": x["mem_lines"] if x["mem_lines"] is not None else roots, "fs": fs, "world": world,
                         "tracker_raises": raising, "loop_fuel": LOOP_FUEL})
-            pend.append(("load_files vs loadFiles (end, open/listdir events in order)", case,
-                         _impl_record(end, events), _load_verdict(out)))
+            if noncanon:
+                # only "refused with the same exception class, nothing touched" is compared (the candidate paths are
+                # built from the root as written in the model, possibly from a resolved root in the code)
+                pend.append(("load_files with a non-canonical root vs loadFiles (refusal only)", case,
+                             {"end": end, "events": []},
+                             lambda a: {"end": a["end"], "events": [e[:2] for e in a["trace"]
+                                                                    if e[0] in ("open", "listdir")]}))
+            else:
+                pend.append(("load_files vs loadFiles (end, open/listdir events in order)", case,
+                             _impl_record(end, events, root_arg), _load_verdict(out)))
     finally:
         os.chdir(old_cwd)
         for p in created:
@@ -1514,7 +1540,7 @@ def _exec_history(T, htables, base_case, out, ops, pend, model_ok):
                 ops.append({"op": "pathres_load", "resolver": RESOLVER_MODEL, "root": str(root_arg), "roots": roots, "fs": fs, "world": world,
                             "tracker_raises": raising, "loop_fuel": LOOP_FUEL})
                 pend.append(("load_files vs loadFiles after tree edits (end, open/listdir events in order)", case,
-                             _impl_record(end, events), _load_verdict(out)))
+                             _impl_record(end, events, root_arg), _load_verdict(out)))
 
 
 def _shared_loader_dict_cases(T, tables, seed, n, ops, pend, out, model_ok):
@@ -1562,7 +1588,7 @@ def _exec_shared(T, tables, base_case, out, ops, pend, model_ok):
             ops.append({"op": "pathres_load", "resolver": RESOLVER_MODEL, "root": str(root_arg), "roots": roots, "fs": fs, "world": world,
                         "tracker_raises": raising, "loop_fuel": LOOP_FUEL})
             pend.append(("load_files (shared protocol-loader dict, own root) vs loadFiles", case,
-                         _impl_record(end, events), _load_verdict(out)))
+                         _impl_record(end, events, root_arg), _load_verdict(out)))
 
 
 def replay(rep):
